@@ -6,6 +6,8 @@ PROP = {
         {"name": "vector_tracked", "quick": 300000, "thorough": 6000000, "maxlen": 256},
         {"name": "portable_vector_int", "quick": 300000, "thorough": 6000000, "maxlen": 256},
         {"name": "portable_vector_tracked", "quick": 200000, "thorough": 4000000, "maxlen": 256},
+        {"name": "vector_cmp", "quick": 300000, "thorough": 3000000, "maxlen": 48},
+        {"name": "portable_vector_cmp", "quick": 200000, "thorough": 2000000, "maxlen": 48},
         {"name": "vector_int_big", "quick": 150000, "thorough": 1000000, "maxlen": 256},
         {"name": "vector_tracked_big", "quick": 100000, "thorough": 500000, "maxlen": 256},
         {"name": "portable_vector_tracked_big", "quick": 60000, "thorough": 300000, "maxlen": 256},
